@@ -150,9 +150,11 @@ T("C04", "twin-uri-plus", "c2.py", "                uri += data", "             
 # =============================================================================== C06
 M("C06", "size-minus-4", "c2.py", "    metadata.size = len(metadata) - 8", "    metadata.size = len(metadata) - 4", "C06.R1")
 M("C06", "info-array-const", "c_c2.py", "    char info[size - 51];", "    char info[size - 50];", "C06.R1")
-M("C06", "magic-check-after-return", "c2.py", "    metadata = BeaconMetadata(pt)\n    if metadata.magic != 0xBEEF:\n        raise ValueError(f\"Invalid metadata magic, got {metadata.magic:08x}, expected 0xbeef\")\n    return metadata",
-  "    metadata = BeaconMetadata(pt)\n    if metadata.magic != 0xBEEF:\n        logger.warning(f\"Invalid metadata magic, got {metadata.magic:08x}, expected 0xbeef\")\n    return metadata", "C06.R2")
-M("C06", "sentinel-mismatch", "c2.py", "    pt = cipher.decrypt(encrypted_metadata, None)", "    pt = cipher.decrypt(encrypted_metadata, b\"\")", "C06.R2")
+M("C06", "magic-check-after-return", "c2.py", "    if metadata.magic != 0xBEEF:\n        raise ValueError(f\"Invalid metadata magic, got {metadata.magic:08x}, expected 0xbeef\")\n    return metadata",
+  "    if metadata.magic != 0xBEEF:\n        logger.warning(f\"Invalid metadata magic, got {metadata.magic:08x}, expected 0xbeef\")\n    return metadata", "C06.R2")
+M("C06", "sentinel-mismatch", "c2.py", "    pt = cipher.decrypt(encrypted_metadata, None)", "    pt = cipher.decrypt(encrypted_metadata, b\"\\x00\")", "C06.R2")
+M("C06", "eof-regression", "c2.py", "    try:\n        metadata = BeaconMetadata(pt)\n    except EOFError:\n        raise ValueError(\"Failed to parse decrypted metadata, not enough data\")", "    metadata = BeaconMetadata(pt)", "C06.R6")
+M("C06", "empty-plaintext-regression", "c2.py", "    if not pt:\n        # depending on the pycryptodome version a padding failure yields the sentinel (None) or empty bytes", "    if pt is None:\n        # depending on the pycryptodome version a padding failure yields the sentinel (None) or empty bytes", "C06.R6")
 M("C06", "client-magic", "client.py", "        self.metadata.magic = 0xBEEF", "        self.metadata.magic = 0xBEEFCAFE", "C06.R3")
 M("C06", "size-after-dumps", "c2.py", "    metadata.size = len(metadata) - 8\n    return cipher.encrypt(metadata.dumps())", "    data = metadata.dumps()\n    metadata.size = len(metadata) - 8\n    return cipher.encrypt(data)", "C06.R4")
 M("C06", "halves-swapped", "c2.py", "    return digest[:16], digest[16:]", "    return digest[16:], digest[:16]", "C06.R5")
